@@ -300,3 +300,14 @@ REGISTRY["C05"]["theorems"] += T("Proofs.C05b", "BLDFM.C05", ["p3_exp_bound", "p
 REGISTRY["C05"]["partial_clauses"] = ["the explicit bound |numeric - closed form| <= |q| (exp(E) - 1), E = (5/96)|mu|^4 delta^3 h (cubic in the layer thickness) is a theorem "
                                       "(numeric_vs_analytic_flux/_conc); that the observed ratio per halving is 'about eight' (the bound is attained up to a constant) is checked "
                                       "numerically by the order oracle", "float rounding"]
+REGISTRY["C01"]["theorems"] += (T("Proofs.C01b", "BLDFM.C01", ["gronwall_upto", "coef_norms", "layerStep_stable", "layerStep_sub", "local_error", "z_mono", "sweep_first_order"])
+                                + T("Proofs.C01c", "BLDFM.C01", ["alpha_perturb", "shooting_perturb", "sweep_bound_upto", "column_first_order", "small_of_fine", "bound_linear_in_delta"]))
+REGISTRY["C01"]["partial_clauses"] = [
+    "first-order convergence of the returned column to the exact boundary-value solution is a THEOREM (column_first_order: error <= K*exp(L h)*C*delta*h for "
+    "Lipschitz coefficient functions sampled at the nodes, any exact pair of fundamental solutions bounded by M, exact shooting denominator >= d > 0, delta <= 1 "
+    "fine enough); what stays outside Lean: existence/boundedness of the exact fundamental solutions (standard linear-ODE theory, taken as hypotheses), that the "
+    "top condition q = Kz*lambda*p IS the decaying continuation above the top node (eigval_sq / eigval_decaying give lambda^2 and Re lambda >= 0), and the "
+    "literal 2.5x-per-quartering figure (pre-asymptotic constant): decided numerically by the oracle against the Riccati reference",
+    "known finding F1: the first quartering of a coarse, strongly stretched grid gains only 2.2-2.5x (known_findings.json)"]
+REGISTRY["C01"]["assumptions"] = ["shooting denominator non-zero", "exact real/complex arithmetic", "coefficient functions Lipschitz on [z_0, z_top]",
+                                  "layer thickness <= 1 (any unit: the bound's constants scale with it)"]
